@@ -181,24 +181,7 @@ def run_case(case):
         objkw = {'quantiles': list(val)}
     ctx = 'n=%d bs=%d objective=%r continuation=%r seed=%d priors=%r pnames=%r width=%d' % (n, bs, objkw, case['cont'], case['seed'], _kinds(case), case['pnames'], case['width'])
     models.reset()
-    smc = None
-    try:
-        return _run_and_judge(case, m, n, bs, kind, val, ths, objkw, pick, ctx)
-    except Violation as v:
-        # open finding D24: scipy's multivariate normal refuses covariances whose eigenvalues span more than ~10 orders of magnitude
-        # (its positive-definiteness test is relative to the largest eigenvalue), so the proposal density of a population whose
-        # parameters have spreads differing by > ~5 orders of magnitude raises although every variance is positive and finite
-        if v.signature == 'C07:raises:LinAlgError@utils.py:pdf':
-            sm = _LAST.get('smc')
-            try:
-                var = np.diag(np.asarray(sm._populations[-1].cov, dtype=float))
-                ill = bool(np.all(np.isfinite(var)) and np.all(var > 0) and var.max() / var.min() > 1e9)
-            except Exception:
-                ill = False
-            if ill and 'C07:proposal-density-refuses-ill-scaled-covariance' in open_signatures(P):
-                return CaseResult(['stopped-at-known-finding'], None,
-                                  [('C07:proposal-density-refuses-ill-scaled-covariance', v.message + ' [population variances %r]' % var.tolist())])
-        raise
+    return _run_and_judge(case, m, n, bs, kind, val, ths, objkw, pick, ctx)
 
 
 _LAST = {}
